@@ -730,7 +730,8 @@ func (x *Run) convert(st *State, v Val, from, to types.Type) Val {
 	case fs == SInt && ts == SReal:
 		return Val{T: fmt.Sprintf("(to_real %s)", v.T), S: SReal, Ty: to}
 	case fs == SReal && ts == SInt:
-		r := Val{T: fmt.Sprintf("(to_int %s)", v.T), S: SInt, Ty: to}
+		// Go truncates towards zero; SMT to_int is floor
+		r := Val{T: fmt.Sprintf("(ite (>= %s 0.0) (to_int %s) (- (to_int (- %s))))", v.T, v.T, v.T), S: SInt, Ty: to}
 		return r
 	case ts == SStr && fs == SInt:
 		f := x.d.fun("int2str", []Sort{SInt}, SStr)
